@@ -208,7 +208,7 @@ func c05Seq(kind string, ops []string) (res string) {
 			w = t.mocker(b).When(vals...)
 		case "mS":
 			w = t.mocker(b).Returns(c05Vals(t, a)...)
-		case "wR", "wA", "wS", "wW":
+		case "wR", "wA", "wS", "wW", "wM":
 			if w == nil {
 				continue
 			}
@@ -221,6 +221,22 @@ func c05Seq(kind string, ops []string) (res string) {
 				w.AndReturn(c05Val(t, v)...)
 			case "wS":
 				w.Returns(c05Vals(t, a)...)
+			case "wM":
+				var pairs []arg.Pair
+				for _, p := range strings.Split(a, ",") {
+					kv := strings.SplitN(p, "=", 2)
+					if len(kv) != 2 {
+						return "bad-op"
+					}
+					x, _ := strconv.Atoi(kv[0])
+					v, _ := strconv.Atoi(kv[1])
+					if t.pair {
+						pairs = append(pairs, arg.Pair{Args: x, Return: []interface{}{v, v + 1000}})
+					} else {
+						pairs = append(pairs, arg.Pair{Args: x, Return: v})
+					}
+				}
+				w.Matches(pairs...)
 			case "wW":
 				ck, vals := c05Cond(a)
 				if ck == 'i' {
